@@ -302,7 +302,10 @@ pub fn to_convert_format(f: &AbsFilter) -> String {
 // ------------------------------------------------------------------ generators
 
 pub const ECUS: [&[u8; 4]; 8] = [b"ECU1", b"ECU2", b"EC\0\0", b"E\0\0\0", b"ABCD", b"APCT", b"XEBU", b"AU1\0"];
-pub const APIDS: [&[u8; 4]; 8] = [b"APID", b"AP\0\0", b"SYS\0", b"ABCD", b"CTAP", b"ECU1", b"B\0\0\0", b"ZZU1"];
+pub const APIDS: [&[u8; 4]; 12] = [b"APID", b"AP\0\0", b"SYS\0", b"ABCD", b"CTAP", b"ECU1", b"B\0\0\0", b"ZZU1", b"A.B\0", b"AxB\0", b"A+B\0", b"AAB\0"];
+/// literal ids with regex meta characters: only meaningful with the explicit `...IsRegex: false` flag (the auto detection
+/// would read them as regular expressions: A.B also matches AxB, A+B matches AAB)
+pub const ID_LITS_META: [&str; 2] = ["A.B", "A+B"];
 pub const TEXTS: [&str; 10] = ["", "hello world", "Hello World", "HELLO WORLD 42", "abc", "ABC", "x abc y", "foo bar 123", "a.c", "aXc"];
 pub const ID_LITS: [&str; 10] = ["ECU1", "ECU2", "EC", "E", "ABCD", "ABCDE", "APCT", "AP", "SYS", "ZZU1"];
 pub const PL_TEXTS: [&str; 7] = ["hello", "Hello", "abc", "a.c", "WORLD", "o w", "42"];
@@ -363,6 +366,12 @@ pub fn gen_msg(rng: &mut Rng, index: u32) -> (DltMessage, String) {
 }
 
 fn gen_id_crit(rng: &mut Rng) -> IdCrit {
+    gen_id_crit_meta(rng, false)
+}
+fn gen_id_crit_meta(rng: &mut Rng, allow_meta: bool) -> IdCrit {
+    if allow_meta && rng.chance(1, 5) {
+        return IdCrit::Lit(rng.pick(&ID_LITS_META).to_string());
+    }
     if rng.chance(1, 3) {
         IdCrit::Regex(rng.usize_below(ID_REGEX.len()))
     } else {
@@ -382,10 +391,13 @@ pub fn gen_filter(rng: &mut Rng, kind: u8) -> AbsFilter {
         f.ecu = Some(gen_id_crit(rng));
     }
     if p(rng) {
-        f.apid = Some(gen_id_crit(rng));
+        f.apid = Some(gen_id_crit_meta(rng, true));
     }
     if p(rng) {
-        f.ctid = Some(gen_id_crit(rng));
+        f.ctid = Some(gen_id_crit_meta(rng, true));
+    }
+    if [&f.apid, &f.ctid].iter().any(|c| matches!(c, Some(IdCrit::Lit(s)) if ID_LITS_META.contains(&s.as_str()))) {
+        f.explicit_regex_flags = true;
     }
     if p(rng) {
         f.vmm = Some(if rng.chance(1, 3) { VmmCrit::Mstp(rng.below(8) as u8) } else { VmmCrit::Vmm(if rng.chance(1, 2) { rng.next_u8() } else { *rng.pick(&[0x41u8, 0x01, 0x06, 0x26, 0x21, 0x00, 0x0e]) }) });
